@@ -92,6 +92,13 @@ class Same(Spec):
         self.expr = expr
 
 
+class OneOf(Spec):
+    """A value of one of several shapes (explored as separate paths), e.g. OneOf(Int, Const(b""))."""
+
+    def __init__(self, *alternatives):
+        self.alternatives = alternatives
+
+
 class FixedList(Spec):
     """Python list of concrete shape whose items are specs."""
 
